@@ -477,7 +477,8 @@ class C2Profile(ConfigBlock):
             elif setting == BeaconSetting.SETTING_JITTER:
                 profile.set_option("jitter", value)
             elif setting == BeaconSetting.SETTING_DOMAINS:
-                uris = ", ".join(config.uris).encode("latin-1")
+                # several URIs are given as one space separated string
+                uris = " ".join(config.uris).encode("latin-1")
                 if uris:
                     http_get.set_option("uri", uris)
             elif setting == BeaconSetting.SETTING_SPAWNTO:
